@@ -25,6 +25,7 @@
 
 // local sources
 #include "dbgroup/lock/common.hpp"
+#include "dbgroup/verif/hooks.hpp"
 
 namespace
 {
@@ -72,20 +73,25 @@ MCSLock::LockS()  //
     -> SGuard
 {
   auto *qnode = tls_node_ ? tls_node_.release() : new MCSLock{};
+  DBGROUP_VERIF_POINT(kMcsNodeTaken, qnode);
   qnode->lock_.store(kNull, kRelaxed);
   auto tail_ptr = std::bit_cast<uint64_t>(qnode) | kSLock;
 
   auto cur = lock_.load(kRelaxed);
   while (true) {
+    DBGROUP_VERIF_POINT(kMcsSBeforeCas, this);
     if (cur) {  // there are successors
       if (lock_.compare_exchange_weak(cur, cur + kSLock, kAcquire, kRelaxed)) break;
     } else if (lock_.compare_exchange_weak(cur, tail_ptr, kAcquire, kRelaxed)) {
+      DBGROUP_VERIF_POINT(kMcsSNewGroup, this);
       goto end;  // NOLINT
     }
     CPP_UTILITY_SPINLOCK_HINT
   }
 
   // wait until predecessor gives up the lock
+  DBGROUP_VERIF_POINT(kMcsSJoined, this);
+  DBGROUP_VERIF_POINT(kMcsNodeRecycle, qnode);
   tls_node_.reset(qnode);
   tail_ptr = cur & kPtrMask;
   qnode = std::bit_cast<MCSLock *>(tail_ptr);
@@ -97,6 +103,7 @@ MCSLock::LockS()  //
         },
         &lock_, &cur, tail_ptr);
     if ((cur & kPtrMask) != tail_ptr) {
+      DBGROUP_VERIF_POINT(kMcsSWaitNext, this);
       qnode = std::bit_cast<MCSLock *>(tail_ptr);
       while (true) {
         tail_ptr = qnode->lock_.load(kAcquire) & kPtrMask;
@@ -119,15 +126,19 @@ MCSLock::LockSIX()  //
     -> SIXGuard
 {
   auto *qnode = tls_node_ ? tls_node_.release() : new MCSLock{};
+  DBGROUP_VERIF_POINT(kMcsNodeTaken, qnode);
   const auto new_tail = std::bit_cast<uint64_t>(qnode);
 
   qnode->lock_.store(kXLock, kRelaxed);
   const auto cur = lock_.exchange(new_tail | kSIXLock, kAcquire);
+  DBGROUP_VERIF_POINT(kMcsXExchanged, this);
   qnode->lock_.store(cur & kLockMask, kRelaxed);
 
   auto *tail = std::bit_cast<MCSLock *>(cur & kPtrMask);
   if (tail != nullptr) {  // wait until predecessor gives up the lock
+    DBGROUP_VERIF_POINT(kMcsXFlagsStored, this);
     tail->lock_.fetch_add(new_tail, kRelease);
+    DBGROUP_VERIF_POINT(kMcsXLinked, this);
     SpinWithBackoff(
         [](std::atomic_uint64_t *lock) -> bool {
           return (lock->load(kAcquire) & kXMask) == kNoLocks;
@@ -143,15 +154,19 @@ MCSLock::LockX()  //
     -> XGuard
 {
   auto *qnode = tls_node_ ? tls_node_.release() : new MCSLock{};
+  DBGROUP_VERIF_POINT(kMcsNodeTaken, qnode);
   const auto new_tail = std::bit_cast<uint64_t>(qnode);
 
   qnode->lock_.store(kXLock, kRelaxed);
   const auto cur = lock_.exchange(new_tail | kXLock, kAcquire);
+  DBGROUP_VERIF_POINT(kMcsXExchanged, this);
   qnode->lock_.store(cur & kLockMask, kRelaxed);
 
   auto *tail = std::bit_cast<MCSLock *>(cur & kPtrMask);
   if (tail != nullptr) {  // wait until predecessor gives up the lock
+    DBGROUP_VERIF_POINT(kMcsXFlagsStored, this);
     tail->lock_.fetch_add(new_tail, kRelease);
+    DBGROUP_VERIF_POINT(kMcsXLinked, this);
     SpinWithBackoff(
         [](std::atomic_uint64_t *lock) -> bool {
           return (lock->load(kAcquire) & kLockMask) == kNoLocks;
@@ -175,16 +190,19 @@ MCSLock::UnlockS(  //
   if (next_ptr == kNull) {  // this is the tail node
     auto cur = lock_.load(kRelaxed);
     while ((cur & kPtrMask) == this_ptr) {
+      DBGROUP_VERIF_POINT(kMcsUnlockTailPath, this);
       const auto unlock = cur - kSLock;
       if (unlock & (kSMask | kSIXLock)) {
         if (lock_.compare_exchange_weak(cur, unlock, kRelaxed, kRelaxed)) return;
       } else if (lock_.compare_exchange_weak(cur, kNull, kRelaxed, kRelaxed)) {
+        DBGROUP_VERIF_POINT(kMcsNodeRecycle, qnode);
         tls_node_.reset(qnode);
         return;
       }
       CPP_UTILITY_SPINLOCK_HINT
     }
 
+    DBGROUP_VERIF_POINT(kMcsUnlockWaitLink, this);
     while (true) {  // wait until successor fills in its next field
       next_ptr = qnode->lock_.load(kAcquire) & kPtrMask;
       if (next_ptr) break;
@@ -193,7 +211,9 @@ MCSLock::UnlockS(  //
   }
 
   auto *next = std::bit_cast<MCSLock *>(next_ptr);
+  DBGROUP_VERIF_POINT(kMcsUnlockHandOff, this);
   if ((next->lock_.fetch_sub(kSLock, kRelease) & kSMask) == kNoLocks) {
+    DBGROUP_VERIF_POINT(kMcsNodeRecycle, qnode);
     tls_node_.reset(qnode);
   }
 }
@@ -215,15 +235,18 @@ MCSLock::UnlockSIX(  //
   if (next_ptr == kNull) {  // this is the tail node
     auto cur = lock_.load(kRelaxed);
     while ((cur & kPtrMask) == this_ptr) {
+      DBGROUP_VERIF_POINT(kMcsUnlockTailPath, this);
       if (cur & kSMask) {
         if (lock_.compare_exchange_weak(cur, cur ^ kSIXLock, kRelease, kRelaxed)) return;
       } else if (lock_.compare_exchange_weak(cur, kNull, kRelease, kRelaxed)) {
+        DBGROUP_VERIF_POINT(kMcsNodeRecycle, qnode);
         tls_node_.reset(qnode);
         return;
       }
       CPP_UTILITY_SPINLOCK_HINT
     }
 
+    DBGROUP_VERIF_POINT(kMcsUnlockWaitLink, this);
     while (true) {  // wait until successor fills in its next field
       next_ptr = qnode->lock_.load(kAcquire) & kPtrMask;
       if (next_ptr) break;
@@ -232,7 +255,9 @@ MCSLock::UnlockSIX(  //
   }
 
   auto *next = std::bit_cast<MCSLock *>(next_ptr);
+  DBGROUP_VERIF_POINT(kMcsUnlockHandOff, this);
   if ((next->lock_.fetch_xor(kSIXLock, kRelease) & kSMask) == kNoLocks) {
+    DBGROUP_VERIF_POINT(kMcsNodeRecycle, qnode);
     tls_node_.reset(qnode);
   }
 }
@@ -246,15 +271,18 @@ MCSLock::UnlockX(  //
   if (next_ptr == kNull) {  // this is the tail node
     auto cur = lock_.load(kRelaxed);
     while ((cur & kPtrMask) == this_ptr) {
+      DBGROUP_VERIF_POINT(kMcsUnlockTailPath, this);
       if (cur & kSMask) {
         if (lock_.compare_exchange_weak(cur, cur ^ kXLock, kRelease, kRelaxed)) return;
       } else if (lock_.compare_exchange_weak(cur, kNull, kRelease, kRelaxed)) {
+        DBGROUP_VERIF_POINT(kMcsNodeRecycle, qnode);
         tls_node_.reset(qnode);
         return;
       }
       CPP_UTILITY_SPINLOCK_HINT
     }
 
+    DBGROUP_VERIF_POINT(kMcsUnlockWaitLink, this);
     while (true) {  // wait until successor fills in its next field
       next_ptr = qnode->lock_.load(kAcquire) & kPtrMask;
       if (next_ptr) break;
@@ -263,7 +291,9 @@ MCSLock::UnlockX(  //
   }
 
   auto *next = std::bit_cast<MCSLock *>(next_ptr);
+  DBGROUP_VERIF_POINT(kMcsUnlockHandOff, this);
   if ((next->lock_.fetch_xor(kXLock, kRelease) & kSMask) == kNoLocks) {
+    DBGROUP_VERIF_POINT(kMcsNodeRecycle, qnode);
     tls_node_.reset(qnode);
   }
 }
@@ -334,17 +364,20 @@ MCSLock::SIXGuard::UpgradeToX()  //
         return (*next_ptr & kSMask) == kNoLocks;
       },
       &(qnode_->lock_), &next_ptr);
+  DBGROUP_VERIF_POINT(kMcsUpgradeDrained, dest);
 
   const auto this_ptr = std::bit_cast<uint64_t>(qnode_);
   if (next_ptr == kNull) {  // this is the tail node
     auto cur = dest->lock_.load(kRelaxed);
     while ((cur & kPtrMask) == this_ptr) {
+      DBGROUP_VERIF_POINT(kMcsConvTailPath, dest);
       if (dest->lock_.compare_exchange_weak(cur, cur ^ kXMask, kRelaxed, kRelaxed)) {
         return XGuard{dest, qnode_};
       }
       CPP_UTILITY_SPINLOCK_HINT
     }
 
+    DBGROUP_VERIF_POINT(kMcsUnlockWaitLink, dest);
     while (true) {  // wait until successor fills in its next field
       next_ptr = qnode_->lock_.load(kRelaxed) & kPtrMask;
       if (next_ptr) break;
@@ -353,6 +386,7 @@ MCSLock::SIXGuard::UpgradeToX()  //
   }
 
   auto *next = std::bit_cast<MCSLock *>(next_ptr);
+  DBGROUP_VERIF_POINT(kMcsConvHandOff, dest);
   next->lock_.fetch_xor(kXMask, kRelaxed);
   return XGuard{dest, qnode_};
 }
@@ -395,12 +429,14 @@ MCSLock::XGuard::DowngradeToSIX()  //
   if (next_ptr == kNull) {  // this is the tail node
     auto cur = dest->lock_.load(kRelaxed);
     while ((cur & kPtrMask) == this_ptr) {
+      DBGROUP_VERIF_POINT(kMcsConvTailPath, dest);
       if (dest->lock_.compare_exchange_weak(cur, cur ^ kXMask, kRelease, kRelaxed)) {
         return SIXGuard{dest, qnode_};
       }
       CPP_UTILITY_SPINLOCK_HINT
     }
 
+    DBGROUP_VERIF_POINT(kMcsUnlockWaitLink, dest);
     while (true) {  // wait until successor fills in its next field
       next_ptr = qnode_->lock_.load(kRelaxed) & kPtrMask;
       if (next_ptr) break;
@@ -409,6 +445,7 @@ MCSLock::XGuard::DowngradeToSIX()  //
   }
 
   auto *next = std::bit_cast<MCSLock *>(next_ptr);
+  DBGROUP_VERIF_POINT(kMcsConvHandOff, dest);
   next->lock_.fetch_xor(kXMask, kRelease);
   return SIXGuard{dest, qnode_};
 }
